@@ -149,7 +149,9 @@ func c05Specs() []*bfsSpec {
 			voter := honest
 			voter.MetadataSize = 40000
 			cfg2 := cfg
-			cfg2.Peers = []peerCfg{pc, voter}
+			// two honest voters: a single hostile vote cannot tie with the true size
+			// (a tie makes the guess follow Go's map iteration order)
+			cfg2.Peers = []peerCfg{pc, voter, voter}
 			specs = append(specs, &bfsSpec{Name: fmt.Sprintf("c05-magnet-voted-caps%d", caps), Cfg: cfg2,
 				Setup:    []string{"mtick"},
 				Alphabet: append(hostileAlphabet(0, 3, 2*wchunk, true), torrentSide...), Depth: 2, DepthT: 3})
